@@ -404,7 +404,10 @@ class Server:
         return spec
 
     # ------------------------------------------------------------------
-    def run_sim(self, spec, timeout=900):
+    SIM_TIMEOUT = 900        # wall seconds for one simulated run (the runner lowers it for quick)
+
+    def run_sim(self, spec, timeout=None):
+        timeout = timeout or self.SIM_TIMEOUT
         from . import child
         base = self.base
         t = time.monotonic()
